@@ -117,7 +117,8 @@ def rule_dfs(A: Analysis, rep):
         p = P[0]
         pop = w.pop_node()
         k, vc = (w.pop_targets + [None, None])[:2]
-        raises = [n for n in w.nodes() if n.kind == "stmt" and isinstance(n.ast, ast.Raise) and n.ast.exc is not None and "CyclicDependency" in norm(n.ast.exc)]
+        raises = [n for n in w.nodes() if n.kind == "stmt" and isinstance(n.ast, ast.Raise) and n.ast.exc is not None
+                  and ("CyclicDependency" in norm(n.ast.exc) or (A.exc.exc_class(n.ast.exc) or "").endswith(".CyclicDependency"))]
         if len(raises) != 1:
             rep.bad("DFS1", "%s: cycle report" % name, w.loop, "expected one `raise CyclicDependency`, found %d" % len(raises))
             continue
@@ -351,8 +352,9 @@ def rule_dup1(A: Analysis, rep):
 def rule_root1(A: Analysis, rep):
     fi = A.fn(TI + "validate_all_loaded_tasks")
     dt = fi
-    loops = [l for l in fi.node.body if isinstance(l, ast.For)]
-    ok = len(loops) == 1 and norm(loops[0].iter) in ("self._loaded_tasks.keys()", "self._loaded_tasks", "list(self._loaded_tasks.keys())", "list(self._loaded_tasks)")
+    _all_loaded = ("self._loaded_tasks.keys()", "self._loaded_tasks", "list(self._loaded_tasks.keys())", "list(self._loaded_tasks)")
+    loops = [l for l in fi.node.body if isinstance(l, ast.For) and norm(l.iter) in _all_loaded]
+    ok = len(loops) == 1
     det = "outer loop not over all loaded tasks"
     cand = None
     if ok:
@@ -385,8 +387,26 @@ def rule_root1(A: Analysis, rep):
     rep.check(ok, "ROOT1", "every dependency edge counts against the dependee", fi.node, "count[dep] += 1 for every edge seen, whether or not dep was visited before",
               "the dependee counter is not incremented for every dependency edge")
     r = [x for x in fi.node.body if isinstance(x, ast.Return)]
-    ok = len(r) == 1 and isinstance(r[0].value, ast.ListComp) and len(r[0].value.generators) == 1 and norm(r[0].value.generators[0].iter) == "%s.items()" % cand and \
-        [norm(i) for i in r[0].value.generators[0].ifs] == ["%s == 0" % norm(r[0].value.generators[0].target.elts[1])] and norm(r[0].value.elt) == norm(r[0].value.generators[0].target.elts[0])
+    ok = False
+    if len(r) == 1 and cand:
+        rv = r[0].value
+        comp = rv if isinstance(rv, ast.ListComp) else None
+        if comp is not None and len(comp.generators) == 1 and isinstance(comp.generators[0].target, ast.Tuple) and len(comp.generators[0].target.elts) == 2:
+            gen = comp.generators[0]
+            cond = gen.ifs[0] if len(gen.ifs) == 1 else None
+            ok = norm(gen.iter) == "%s.items()" % cand and cond is not None and \
+                A.dnf(cond, True, None) == [frozenset({("eq(0,%s)" % norm(gen.target.elts[1]), True)})] and norm(comp.elt) == norm(gen.target.elts[0])
+        elif isinstance(rv, ast.Name):
+            # the loop form: `L = []; for k, n in cand.items(): if n == 0: L.append(k)`
+            from .executor import collect_fills
+            fills = [f_ for f_ in collect_fills(A, fi) if f_[0] == rv.id]
+            init = A.single_def_value(fi, rv.id)
+            if len(fills) == 1 and init is not None and norm(init) in ("[]", "list()"):
+                _n, it_, elt_, gs_ = fills[0]
+                lp_ = [l for l in walk_local(fi.node) if isinstance(l, ast.For) and l.iter is it_]
+                tg_ = lp_[0].target if lp_ else None
+                ok = norm(it_) == "%s.items()" % cand and isinstance(tg_, ast.Tuple) and len(tg_.elts) == 2 and norm(elt_) == norm(tg_.elts[0]) and \
+                    gs_ == [frozenset({("eq(0,%s)" % norm(tg_.elts[1]), True)})]
     rep.check(ok, "ROOT1", "roots = candidates nobody depends on", fi.node, "", "the returned roots are not exactly the candidates with count 0")
     # the explorer uses it and maps errors to HTTP 400
     rt = A.fn("explorer.routes.get_task_graph")
